@@ -167,8 +167,13 @@ class Check:
         self.dist[key] = self.dist.get(key, 0) + n
 
     # ------------------------------------------------------------ Coq side
-    def build(self):
-        """Full .vo build of the development (no-op when up to date)."""
+    def build(self, targets=None):
+        """.vo build (no -vos) of this property's files and what they import (no-op when up to date).
+        targets: .vo paths relative to coq/ (default: props/<pid>.vo and every corr/*.vo whose
+        source mentions this property id).  setup_cmd builds the whole development."""
+        if targets is None:
+            targets = [f"props/{self.pid}.vo"] + sorted(
+                f"corr/{f.stem}.vo" for f in (COQ / "corr").glob("*.v") if self.pid in f.read_text())
         lock = open(COQ / ".buildlock", "w")
         fcntl.flock(lock, fcntl.LOCK_EX)
         try:
@@ -176,13 +181,15 @@ class Check:
                 rc, out, err, _ = sh(["coq_makefile", "-f", "_CoqProject", "-o", "Makefile"], 120, cwd=COQ)
                 if rc:
                     raise InternalError("coq_makefile failed: " + err)
-            rc, out, err, dt = sh(["make", "-j16"], 1500, cwd=COQ)
-            self.checker_cmds.append("make -C coq -j16")
+            rc, out, err, dt = sh(["make", "-j16", "-k"] + list(targets), 1500, cwd=COQ)
+            self.checker_cmds.append("make -C coq -j16 " + " ".join(targets))
             self.build_ok = rc == 0
             self.build_log = (out + err)[-4000:]
         finally:
             fcntl.flock(lock, fcntl.LOCK_UN)
             lock.close()
+        self.obligations.append(dict(name="build:" + ",".join(targets), kind="build", ok=self.build_ok,
+                                     detail="" if self.build_ok else self.build_log[-600:]))
         self.gate()
         return self.build_ok
 
